@@ -431,7 +431,7 @@ fn shrinks_uncapped(sc: &Scenario, names: &[&str]) -> Vec<Scenario> {
         let mut c = sc.clone();
         c.whmask = 0;
         out.push(c);
-        for b in 0..5 {
+        for b in 0..6 {
             if sc.whmask & (1 << b) != 0 && sc.whmask != (1 << b) {
                 let mut c = sc.clone();
                 c.whmask &= !(1 << b);
